@@ -821,3 +821,555 @@ def _key_writers(ctx: Context) -> int:
                  f"{ctx.fkey(g)}:derive-closure", f"{q}: the session's derive function is {shown}; salt/info must be its first/second argument", g.loc())
     ck.require_min("C18.T2", "derive closures of the pair-verify session", len(closures), 2)
     return n_sites
+
+
+# ---------------------------------------------------------------------- K1
+class _NoEval(Exception):
+    pass
+
+
+def _eval(t, leaves: dict, env: dict):
+    """Evaluate a closed term of the data-independent family (constant-bound slices, hex, join, case folding,
+    comprehensions over range) with the given leaf values.  Anything else raises _NoEval (-> UNKNOWN)."""
+    if t in leaves:
+        return leaves[t]
+    k = t[0]
+    if k == "const":
+        return t[1]
+    if k == "cvar":
+        if t[1] not in env:
+            raise _NoEval(f"free variable {t[1]}")
+        return env[t[1]]
+    if k == "add":
+        vals = [_eval(x, leaves, env) for x in t[1]]
+        acc = vals[0]
+        for v in vals[1:]:
+            if type(acc) is not type(v) or not isinstance(acc, (int, str, bytes)):
+                raise _NoEval("add")
+            acc = acc + v
+        return acc
+    if k == "binop" and t[1] in ("Sub", "Mult", "FloorDiv", "Mod"):
+        a, b = _eval(t[2], leaves, env), _eval(t[3], leaves, env)
+        if type(a) is not int or type(b) is not int or (t[1] in ("FloorDiv", "Mod") and b == 0):
+            raise _NoEval("binop")
+        return {"Sub": a - b, "Mult": a * b, "FloorDiv": a // b if b else 0, "Mod": a % b if b else 0}[t[1]]
+    if k == "sub":
+        base = _eval(t[1], leaves, env)
+        if not isinstance(base, (bytes, str, list, tuple)):
+            raise _NoEval("subscript base")
+        idx = t[2]
+        if idx[0] == "slice":
+            b = [None if x is None else _eval(x, leaves, env) for x in idx[1:4]]
+            if any(x is not None and type(x) is not int for x in b) or b[2] == 0:
+                raise _NoEval("slice bound")
+            return base[b[0]:b[1]:b[2]]
+        i = _eval(idx, leaves, env)
+        if type(i) is not int or not -len(base) <= i < len(base):
+            raise _NoEval("index")
+        return base[i]
+    if k in ("tuple", "list"):
+        return [_eval(x, leaves, env) for x in t[1]]
+    if k == "fstr":
+        out = ""
+        for part in t[1]:
+            if part[0] == "const":
+                out += str(part[1])
+            else:
+                v = _eval(part[1], leaves, env)
+                spec = _eval(part[3], leaves, env) if part[3] is not None else ""
+                if part[2] != -1 or not isinstance(spec, str) or not isinstance(v, (int, str)):
+                    raise _NoEval("format")
+                try:
+                    out += format(v, spec)
+                except Exception as e:  # noqa: BLE001
+                    raise _NoEval("format") from e
+        return out
+    if k == "comp" and t[1] in ("GeneratorExp", "ListComp"):
+        gens = t[3]
+
+        def rec(i, env2):
+            if i == len(gens):
+                yield _eval(t[2], leaves, env2)
+                return
+            tgt, it, conds = gens[i]
+            if tgt[0] != "cvar" or conds:
+                raise _NoEval("comprehension shape")
+            seq = _eval(it, leaves, env2)
+            if not isinstance(seq, (range, bytes, str, list)) or len(seq) > 64:
+                raise _NoEval("comprehension iterable")
+            for v in seq:
+                yield from rec(i + 1, {**env2, tgt[1]: v})
+
+        return list(rec(0, env))
+    if k == "call" and not t[3]:
+        fn = t[1]
+        args = [_eval(x, leaves, env) for x in t[2]]
+        if fn == ("glob", "range") and 1 <= len(args) <= 3 and all(type(a) is int for a in args) and (len(args) < 3 or args[2] != 0):
+            return range(*args)
+        if fn == ("glob", "len") and len(args) == 1 and isinstance(args[0], (bytes, str, list, range)):
+            return len(args[0])
+        if fn[0] == "attr":
+            recv = _eval(fn[1], leaves, env)
+            name = fn[2]
+            if name == "hex" and isinstance(recv, bytes) and (not args or (len(args) == 1 and isinstance(args[0], str) and len(args[0]) == 1)):
+                return recv.hex(*args)
+            if name in ("lower", "upper") and isinstance(recv, str) and not args:
+                return getattr(recv, name)()
+            if name == "join" and isinstance(recv, str) and len(args) == 1 and isinstance(args[0], list) and all(isinstance(x, str) for x in args[0]):
+                return recv.join(args[0])
+    raise _NoEval(f"unsupported term {show(t, 60)}")
+
+
+ID_VECTORS = [bytes.fromhex("abcdef01029a"), bytes.fromhex("00ff10a0b00c"), bytes.fromhex("fedcba987654")]
+
+
+def _k1(ctx: Context) -> None:
+    ck = ctx.ck
+    sites = _k1_parser(ctx)
+    sites += _k1_routing(ctx)
+    sites += _k1_plaintext(ctx)
+    sites += _k1_from_bytes(ctx)
+    ck.require_min("C18.K1", "layout/routing sites (parser fields, routing, plaintext fields, format rows)", sites, 18)
+
+
+def _type_gate(ctx: Context, cfg, want_base=None):
+    """Tests `X[0] == 0x11` / `!=`  -> (pass edges, [X terms])."""
+    T = ctx.terms
+    pas, bases = [], []
+    for n in cfg.nodes:
+        if n.kind != "test":
+            continue
+        t = strip_sites(T.of(cfg, n, n.exprs[0]))
+        if t[0] != "cmp" or len(t[1]) != 1 or t[1][0] not in ("Eq", "NotEq"):
+            continue
+        for a, b in ((t[2][0], t[2][1]), (t[2][1], t[2][0])):
+            if b == ("const", SPEC.NOTIFICATION_TYPE) and a[0] == "sub" and a[2] == ("const", 0):
+                pas += ctx.edges(cfg, n, "T" if t[1][0] == "Eq" else "F")
+                bases.append(a[1])
+    return pas, bases
+
+
+def _k1_parser(ctx: Context) -> int:
+    ck = ctx.ck
+    T = ctx.terms
+    f = ctx.func(PARSER)
+    cfg = ctx.cfg(PARSER)
+    fk = ctx.fkey(f)
+    rets = [n for n in cfg.nodes if n.kind == "return" and n.exprs and isinstance(n.exprs[0], ast.Call)]
+    if len(rets) != 1 or len([n for n in cfg.nodes if n.kind == "return"]) != 1:
+        ck.unknown("C18.K1", "notification parser: expected one constructor return", f.loc())
+        return 0
+    rn = rets[0]
+    loc = ctx.loc(f, rn)
+    pas, bases = _type_gate(ctx, cfg)
+    ctx.must_pass("C18.K1", cfg, rn, f"type byte == {SPEC.NOTIFICATION_TYPE:#04x} [equal outcome]", pas,
+                  desc=f"notification parser: an object is built only for manufacturer data of type {SPEC.NOTIFICATION_TYPE:#04x}")
+    if len(set(bases)) != 1:
+        if bases:
+            ck.unknown("C18.K1", "notification parser: several type tests on different buffers", f.loc())
+        return 1
+    M = bases[0]
+    okm = (M[0] == "call" and M[1][0] == "attr" and M[1][2] == "get" and M[1][1][0] == "param" and M[2][:1] == (("const", SPEC.APPLE_COMPANY_ID),))
+    _judge(ck, "C18.K1", okm, [M], f"notification parser: the bytes are the manufacturer data of company id {SPEC.APPLE_COMPANY_ID}",
+           f"{fk}:company-id", f"notification parser: the parsed buffer is {show(M, 100)}", loc)
+    call = rn.exprs[0]
+    kw = {k.arg: strip_sites(T.of(cfg, rn, k.value)) for k in call.keywords if k.arg}
+    fields = [x.target.id for x in f.cls.node.body if isinstance(x, ast.AnnAssign) and isinstance(x.target, ast.Name)] if f.cls else []
+    for i, a in enumerate(call.args):
+        if i < len(fields):
+            kw[fields[i]] = strip_sites(T.of(cfg, rn, a))
+    lo, hi = SPEC.ADV_ID_SLICE
+    adv = ("sub", M, ("slice", ("const", lo), ("const", hi), None))
+    missing = ("unknown", "field not passed")
+    at = kw.get("advertising_identifier", missing)
+    _judge(ck, "C18.K1", at == adv, [at], f"notification: advertising identifier = bytes {lo}..{hi}", f"{fk}:field:advertising_identifier",
+           f"notification parser: advertising_identifier is {show(at, 100)}, HAP-BLE says bytes [{lo}:{hi}]", loc)
+    pt = kw.get("encrypted_payload", missing)
+    sl = _slice_of(pt) if pt[0] == "sub" else None
+    _judge(ck, "C18.K1", sl is not None and sl == (M, SPEC.PAYLOAD_START, None), [pt], f"notification: encrypted payload = bytes {SPEC.PAYLOAD_START}..",
+           f"{fk}:field:encrypted_payload", f"notification parser: encrypted_payload is {show(pt, 100)}, HAP-BLE says bytes [{SPEC.PAYLOAD_START}:]", loc)
+    it = kw.get("id", missing)
+    try:
+        got = [_eval(it, {adv: v}, {}) for v in ID_VECTORS]
+        want = [":".join(f"{b:02x}" for b in v) for v in ID_VECTORS]
+        ck.check("C18.K1", got == want, "notification: id = lower-case colon-separated hex of the advertising identifier bytes (term evaluated on 3 vectors)",
+                 f"{fk}:field:id", f"notification parser: for advertising id {ID_VECTORS[0].hex()} the id is {got[0]!r}, pairings are keyed by {want[0]!r}", loc)
+    except _NoEval as e:
+        ck.unknown("C18.K1", f"notification parser: id term outside the evaluable family ({e}): {show(it, 140)}", loc)
+    return 5
+
+
+def _k1_routing(ctx: Context) -> int:
+    ck = ctx.ck
+    T = ctx.terms
+    f = ctx.func(DETECTED)
+    cfg = ctx.cfg(DETECTED)
+    fk = ctx.fkey(f)
+    pf = ctx.func(PARSER)
+    parses = [(n, c) for n in cfg.nodes for c in ctx.calls(n) if PARSER in ctx.callee_names(f, c)]
+    if len(parses) != 1:
+        ck.unknown("C18.K1", f"_device_detected: expected one call of the notification parser, found {len(parses)}", f.loc())
+        return 0
+    pn, pc = parses[0]
+    P = T.of(cfg, pn, pc)
+    pas, bases = _type_gate(ctx, cfg)
+    ctx.must_pass("C18.K1", cfg, pn, f"type byte == {SPEC.NOTIFICATION_TYPE:#04x} [equal outcome]", pas,
+                  desc=f"_device_detected: only type {SPEC.NOTIFICATION_TYPE:#04x} manufacturer data is parsed as an encrypted notification")
+    # the bytes that were type-tested are the bytes that are parsed
+    b = _bind(pc, pf, True)
+    md_idx = None
+    pcfg = ctx.cfg(PARSER)
+    _pp, pbases = _type_gate(ctx, pcfg)
+    if pbases and pbases[0][0] == "call" and pbases[0][1][0] == "attr" and pbases[0][1][1][0] == "param" and pbases[0][1][1][1] in pf.pos_params:
+        md_idx = pf.pos_params.index(pbases[0][1][1][1])
+    if b is None or md_idx is None or md_idx not in b or not bases:
+        ck.unknown("C18.K1", "_device_detected: cannot relate the type-tested bytes to the parser's argument", ctx.loc(f, pn))
+    else:
+        mt = strip_sites(T.of(cfg, pn, b[md_idx]))
+        want = ("call", ("attr", mt, "get"), (("const", SPEC.APPLE_COMPANY_ID),), ())
+        _judge(ck, "C18.K1", all(x == want for x in bases), [mt] + bases, "_device_detected: the type test reads the same manufacturer data that is parsed",
+               f"{fk}:type-test-buffer", f"_device_detected: type test on {show(bases[0], 100)}, parser is given {show(mt, 100)}", ctx.loc(f, pn))
+    # parse errors are ignored
+    bad = [(d, e) for (d, l, e) in pn.succ if l == "x" and cfg.nodes[d].kind != "handler"]
+    notif_calls = [(n, c) for n in cfg.nodes for c in ctx.calls(n) if NOTIF in ctx.callee_names(f, c)]
+    ck.check("C18.K1", not bad, "_device_detected: errors of the notification parser are caught (malformed notifications are ignored)",
+             f"{fk}:parser-error-uncaught", f"_device_detected: {sorted({e for _d, e in bad})} raised by the notification parser is not caught", ctx.loc(f, pn))
+    for d, l, e in pn.succ:
+        if l == "x" and cfg.nodes[d].kind == "handler":
+            reach = cfg.reachable_from(d)
+            ck.check("C18.K1", not any(n.id in reach for n, _c in notif_calls), f"_device_detected: after a parse error ({e}) no pairing is notified",
+                     f"{fk}:parse-error-continues", "_device_detected: a parse error still reaches _async_notification", ctx.loc(f, cfg.nodes[d]))
+    if len(notif_calls) != 1:
+        ck.unknown("C18.K1", f"_device_detected: expected one _async_notification call, found {len(notif_calls)}", f.loc())
+        return 3
+    nn, nc = notif_calls[0]
+    selfp = f.pos_params[0]
+    recv = T.of(cfg, nn, nc.func.value) if isinstance(nc.func, ast.Attribute) else ("unknown", "receiver")
+    want = ("call", ("attr", _self_attr(selfp, "pairings"), "get"), (("attr", strip_sites(P), "id"),), ())
+    _judge(ck, "C18.K1", strip_sites(recv) == want and contains(recv, lambda s: s == P), [recv],
+           "_device_detected: the notification is routed to pairings.get(<id parsed from this notification>)", f"{fk}:routing",
+           f"_device_detected: the notification is delivered to {show(recv, 160)}", ctx.loc(f, nn))
+    arg = T.of(cfg, nn, nc.args[0]) if nc.args else ("unknown", "no argument")
+    _judge(ck, "C18.K1", arg == P, [arg], "_device_detected: the pairing receives the parsed notification itself", f"{fk}:routing-argument",
+           f"_device_detected: _async_notification receives {show(arg, 120)}", ctx.loc(f, nn))
+    ctx.must_pass("C18.K1", cfg, nn, "notification parsed [normal outcome]", ctx.normal_out(cfg, pn),
+                  desc="_device_detected: a pairing is notified only after the parser returned normally")
+    return 6
+
+
+def _k1_plaintext(ctx: Context) -> int:
+    ck = ctx.ck
+    T = ctx.terms
+    p = _parts(ctx, "C18.K1")
+    if p is None:
+        return 0
+    f, cfg = p.f, p.cfg
+    fk = ctx.fkey(f)
+    sites = 0
+
+    def field(t, sl):
+        """t == int.from_bytes(D[lo:hi], 'little') ?  -> (ok, decided)"""
+        r = _int_from_bytes(t)
+        if r is None:
+            return False
+        s = _slice_of(r[0]) if r[0][0] == "sub" else None
+        return s is not None and s[0] == p.D and (s[1], s[2]) == sl and r[1] == ("const", SPEC.BYTE_ORDER)
+
+    for n, g in p.inner:
+        sites += 1
+        _judge(ck, "C18.K1", field(g, SPEC.GSN_SLICE), [g], "inner GSN = little-endian integer of plaintext bytes 0..2",
+               f"{fk}:field:gsn", f"_async_notification: the value compared with the nonce counter is {show(strip_sites(g), 160)}, not "
+               "int.from_bytes(plaintext[0:2], 'little')", ctx.loc(f, n))
+    for ln, lc in p.listeners:
+        loc = ctx.loc(f, ln)
+        if len(lc.args) != 1:
+            ck.unknown("C18.K1", "_callback_listeners is not called with one positional argument", loc)
+            continue
+        rt = T.of(cfg, ln, lc.args[0])
+        if not (rt[0] == "dict" and len(rt[1]) == 1 and rt[1][0][0][0] == "tuple" and len(rt[1][0][0][1]) == 2):
+            _judge(ck, "C18.K1", False, [rt], "listeners receive {(aid, iid): {...}} with exactly one entry", f"{fk}:result-shape",
+                   f"_async_notification: listeners receive {show(rt, 160)}", loc)
+            continue
+        (aid_t, iid_t), val_t = rt[1][0][0][1], rt[1][0][1]
+        sites += 1
+        _judge(ck, "C18.K1", aid_t == ("const", SPEC.BLE_AID), [aid_t], f"delivered under accessory id {SPEC.BLE_AID}", f"{fk}:key-aid",
+               f"_async_notification: result key uses aid {show(aid_t, 60)}", loc)
+        sites += 1
+        _judge(ck, "C18.K1", field(iid_t, SPEC.IID_SLICE), [iid_t], "delivered under iid = little-endian integer of plaintext bytes 2..4",
+               f"{fk}:field:iid", f"_async_notification: the result key's iid is {show(strip_sites(iid_t), 160)}, not int.from_bytes(plaintext[2:4], 'little')", loc)
+        vok = val_t[0] == "dict" and len(val_t[1]) == 1 and val_t[1][0][0] == ("const", "value")
+        if not vok:
+            _judge(ck, "C18.K1", False, [val_t], "delivered as {'value': decoded}", f"{fk}:result-value-shape",
+                   f"_async_notification: the entry delivered is {show(val_t, 120)}", loc)
+            continue
+        v = val_t[1][0][1]
+        is_fb = v[0] == "call" and v[1] == ("glob", FROM_BYTES) and len(v[2]) == 2 and not v[3]
+        if not is_fb:
+            _judge(ck, "C18.K1", False, [v], "value decoded by ble.values.from_bytes(char, value bytes)", f"{fk}:value-decoder",
+                   f"_async_notification: the delivered value is {show(strip_sites(v), 160)}, not from_bytes(char, plaintext[4:12])", loc)
+            continue
+        char_t, bytes_t = v[2]
+        s = _slice_of(bytes_t) if bytes_t[0] == "sub" else None
+        sites += 1
+        _judge(ck, "C18.K1", s is not None and s[0] == p.D and (s[1], s[2]) == SPEC.VALUE_SLICE, [bytes_t],
+               "value bytes = plaintext bytes 4..12", f"{fk}:field:value",
+               f"_async_notification: the value is decoded from {show(strip_sites(bytes_t), 120)}, not plaintext[4:12]", loc)
+        want_char = ("call", ("attr", ("attr", ("call", ("attr", _self_attr(p.selfp, "accessories"), "aid"), (("const", SPEC.BLE_AID),), ()), "characteristics"), "iid"),
+                     (strip_sites(iid_t),), ())
+        sites += 1
+        _judge(ck, "C18.K1", strip_sites(char_t) == want_char, [char_t], "the format is taken from the characteristic with the notification's iid (accessory 1)",
+               f"{fk}:characteristic", f"_async_notification: the characteristic used for decoding is {show(strip_sites(char_t), 200)}", loc)
+    return sites
+
+
+def _k1_from_bytes(ctx: Context) -> int:
+    """Decision table of from_bytes: propagate every format constant through the CFG and compare the return term."""
+    ck = ctx.ck
+    T = ctx.terms
+    f = ctx.func(FROM_BYTES)
+    cfg = ctx.cfg(FROM_BYTES)
+    fk = ctx.fkey(f)
+    if len(f.pos_params) != 2:
+        ck.unknown("C18.K1", "from_bytes no longer has (char, value) parameters", f.loc())
+        return 0
+    charp, valp = f.pos_params
+    fmt_t = ("attr", ("param", charp), "format")
+
+    def walk(fmt: str):
+        cur, steps = cfg.entry.id, 0
+        while steps < 200:
+            steps += 1
+            n = cfg.nodes[cur]
+            if n.kind == "return":
+                return n
+            if n.kind == "test":
+                t = strip_sites(T.of(cfg, n, n.exprs[0]))
+                v = None
+                if t[0] == "cmp" and len(t[1]) == 1:
+                    l, r = t[2]
+                    op = t[1][0]
+                    if op in ("Eq", "NotEq") and fmt_t in (l, r):
+                        o = r if l == fmt_t else l
+                        if o[0] == "const":
+                            v = (o[1] == fmt) == (op == "Eq")
+                    elif op in ("In", "NotIn") and l == fmt_t and r[0] in ("tuple", "set", "list") and all(x[0] == "const" for x in r[1]):
+                        v = (fmt in [x[1] for x in r[1]]) == (op == "In")
+                if v is None:
+                    return None
+                nxt = [d for (d, l, _e) in n.succ if l == ("T" if v else "F")]
+            else:
+                nxt = [d for (d, l, _e) in n.succ if l == "n"]
+            if len(nxt) != 1:
+                return None
+            cur = nxt[0]
+        return None
+
+    rows = 0
+    for fmt, (code, size) in sorted(SPEC.VALUE_FORMATS.items()):
+        rn = walk(fmt)
+        if rn is None or not rn.exprs:
+            ck.unknown("C18.K1", f"from_bytes: cannot propagate format {fmt!r} to a return", f.loc())
+            continue
+        t = strip_sites(T.of(cfg, rn, rn.exprs[0]))
+        ok = False
+        if t[0] == "sub" and t[2] == ("const", 0) and t[1][0] == "call" and t[1][1] == ("glob", "struct.unpack_from") and not t[1][3]:
+            a = t[1][2]
+            if len(a) == 2 and a[1] == ("param", valp) and a[0][0] == "const" and isinstance(a[0][1], str):
+                got = a[0][1]
+                ok = any(got == pre + code for pre in SPEC.LITTLE_ENDIAN_PREFIXES)
+        rows += 1
+        _judge(ck, "C18.K1", ok, [t], f"from_bytes: format {fmt} -> struct code {code!r} ({size} of the 8 value bytes, little-endian)",
+               f"{fk}:format:{fmt}", f"from_bytes: format {fmt} is decoded by {show(t, 100)}; HAP-BLE says {size}-byte little-endian `{code}`", ctx.loc(f, rn))
+    rn = walk(SPEC.STRING_FORMAT)
+    if rn is None or not rn.exprs:
+        ck.unknown("C18.K1", "from_bytes: cannot propagate format 'string' to a return", f.loc())
+    else:
+        t = strip_sites(T.of(cfg, rn, rn.exprs[0]))
+        ok = (t[0] == "call" and t[1] == ("attr", ("param", valp), "decode") and not t[3]
+              and (not t[2] or (len(t[2]) == 1 and t[2][0][0] == "const" and t[2][0][1] in SPEC.STRING_CODECS)))
+        rows += 1
+        _judge(ck, "C18.K1", ok, [t], "from_bytes: format string -> UTF-8 text", f"{fk}:format:string",
+               f"from_bytes: strings are decoded by {show(t, 100)}", ctx.loc(f, rn))
+    return rows
+
+
+# ---------------------------------------------------------------------- thorough: who may write
+STATE_WRITERS = {
+    NOTIF: "gated by C18.G1 (authentic, fresh, inner GSN == nonce)",
+    UPDATE_STATE: "helper: value read from the accessory over the authenticated GATT session / connected-event increments",
+    f"{BP}._populate_char_values": "protocol parameters read over the authenticated GATT session",
+}
+KEY_WRITERS = {
+    INIT: "None, then the cached key (C18.T2)",
+    SETKEY: "the derived key (C18.T2)",
+}
+
+
+def run_thorough(ctx: Context) -> None:
+    ck = ctx.ck
+    T = ctx.terms
+    if not ck.rule("C18.W1", "sweep: who may write description.state_num and the broadcast key"):
+        return
+    n_state = 0
+    desc_writers = set()
+    for f, cfg, n, base, val in _attr_writers(ctx, "state_num"):
+        bt = strip_sites(T.of(cfg, n, base))
+        if not (bt[0] == "attr" and bt[2] == "description"):
+            ck.holds("C18.W1", f"{f.qualname.split('.', 1)[1]}: writes state_num of {show(bt, 60)} (not a description; cache copy)", ctx.loc(f, n))
+            continue
+        n_state += 1
+        desc_writers.add(f.qualname)
+        why = STATE_WRITERS.get(f.qualname)
+        ck.check("C18.W1", why is not None, f"{f.qualname.split('.', 1)[1]}: writer of description.state_num - {why}",
+                 f"{ctx.fkey(f)}:unlisted-state-writer:{norm_stmt(n.text())}",
+                 f"{f.qualname}: `{n.text()}` writes the last accepted state number outside the reviewed writers "
+                 f"({', '.join(sorted(q.rsplit('.', 1)[-1] for q in STATE_WRITERS))})", ctx.loc(f, n))
+    ck.require_min("C18.W1", "writers of description.state_num", n_state, 3)
+    n_key = 0
+    for f, cfg, n, base, val in _attr_writers(ctx, "_broadcast_decryption_key"):
+        n_key += 1
+        why = KEY_WRITERS.get(f.qualname)
+        ck.check("C18.W1", why is not None, f"{f.qualname.split('.', 1)[1]}: writer of _broadcast_decryption_key - {why}",
+                 f"{ctx.fkey(f)}:unlisted-key-writer:{norm_stmt(n.text())}",
+                 f"{f.qualname}: `{n.text()}` replaces the broadcast key outside __init__ / _async_set_broadcast_encryption_key", ctx.loc(f, n))
+    ck.require_min("C18.W1", "writers of _broadcast_decryption_key", n_key, 3)
+    # nothing that runs synchronously inside the handler (other than the gated update) writes the state number
+    inside = [q for q in sync_closure(ctx, [NOTIF]) if q != NOTIF]
+    bad = sorted(set(inside) & desc_writers)
+    p = _parts(ctx, "C18.W1")
+    if p is not None:
+        # a call of _update_state_num inside the handler is an acceptance site of G1 and therefore gated
+        gated = {UPDATE_STATE} if any(UPDATE_STATE in ctx.callee_names(p.f, c) for n, _v in p.stores for c in ctx.calls(n)) else set()
+        bad = [q for q in bad if q not in gated]
+    ck.check("C18.W1", not bad, f"no function running synchronously inside _async_notification ({len(inside)} functions) writes description.state_num",
+             f"{NOTIF}:callee-writes-state", f"_async_notification synchronously calls {bad}, which write description.state_num outside the gates", ctx.func(NOTIF).loc())
+    # wholesale replacement of the description (recorded, not judged: regular advertisements are not in this property's alphabet)
+    repl = []
+    mro = set(ctx.prog.mro(BP))
+    for f, cfg, n, base, val in _attr_writers(ctx, "description"):
+        if f.cls is not None and f.cls.qualname in mro and f.pos_params and strip_sites(T.of(cfg, n, base)) == ("param", f.pos_params[0]):
+            repl.append(f"{f.qualname.split('.', 1)[1]} ({ctx.loc(f, n)})")
+    ck.stats["c18_description_replaced_by"] = sorted(repl)
+    ck.note("description objects are replaced wholesale by: " + "; ".join(sorted(repl)) + " - regular (unauthenticated) advertisements "
+            "re-anchor the window; they are outside the history alphabet of C18 (encrypted notifications only)")
+
+
+MANIFEST = {
+    "technique": "CFG must-pass-through with gates as edges (per loop iteration), window analysis of the candidate iterable term, "
+    "def-use terms for the AEAD argument flow / MAC input / key derivation, evaluation of the id term, constant propagation of "
+    "every characteristic format through from_bytes, who-may-write sweep",
+    "level_text": "Static, all paths: decides that the state-number update and the listener call of the encrypted-broadcast handler "
+    "are reachable only through key-present, description-present and - for the same candidate - authenticated, not-stale and "
+    "inner-GSN-equals-nonce outcomes; that every candidate of the (finite) window is >= the last accepted number and the equal one "
+    "only reaches the ignore-return; that nonce, combined text, AAD, 4-byte tag, MAC input, key-stream counter and the HKDF "
+    "salt/info of the broadcast key are the specified ones and a tag mismatch returns before any decryption; and the byte layout, "
+    "id formatting, routing and format table. From these premises the history statement (no replay, forgery or mismatching inner "
+    "counter changes state or reaches listeners; an accepted notification advances the number) follows by induction over the "
+    "sequence of advertisements; histories themselves are not explored.",
+    "level_note": "NOT decided: histories as such; Poly1305/ChaCha/HKDF primitives and the third-party base class (trusted); forgery "
+    "probability of the 4-byte tag (payloads shorter than 4 bytes weaken it further but then decode to GSN 0, which no candidate >= 1 "
+    "equals); native struct byte order taken as little-endian; plaintexts shorter than 12 bytes (struct.error after the update) are "
+    "outside the rule. Regular unauthenticated advertisements replace description.state_num wholesale (recorded by the W1 sweep) "
+    "and are outside this property's alphabet. Unrecognised restructurings end in ANALYSIS-ERROR (exit 2), not a pass.",
+}
+
+TWIN_FILES = [
+    "aiohomekit/controller/ble/pairing.py",
+    "aiohomekit/controller/ble/key.py",
+    "aiohomekit/crypto/chacha20poly1305.py",
+    "aiohomekit/controller/ble/manufacturer_data.py",
+    "aiohomekit/controller/ble/controller.py",
+    "aiohomekit/controller/ble/values.py",
+    "aiohomekit/protocol/__init__.py",
+]
+_P = "aiohomekit/controller/ble/pairing.py"
+_K = "aiohomekit/controller/ble/key.py"
+_C = "aiohomekit/crypto/chacha20poly1305.py"
+_M = "aiohomekit/controller/ble/manufacturer_data.py"
+_D = "aiohomekit/controller/ble/controller.py"
+_V = "aiohomekit/controller/ble/values.py"
+_STALE = (
+    "            if state_num == start_state_num:\n"
+    "                logger.debug(\n"
+    '                    "%s: Encrypted notification with stale state_num %s ignored: %s",\n'
+    "                    self.name,\n"
+    "                    state_num,\n"
+    "                    data,\n"
+    "                )\n"
+    "                return\n"
+)
+_GSN = (
+    "            if gsn != state_num:\n"
+    "                logger.debug(\n"
+    '                    "%s: GSN mismatch, expected: %s, got: %s",\n'
+    "                    self.name,\n"
+    "                    state_num,\n"
+    "                    gsn,\n"
+    "                )\n"
+    "                return\n"
+)
+VARIANTS = [
+    # ---- Appendix A
+    {"name": "stale test deleted", "file": _P, "old": _STALE, "new": "", "expect": ["C18.G1", "C18.T1"]},
+    {"name": "GSN test deleted", "file": _P, "old": _GSN, "new": "", "expect": "C18.G1"},
+    {"name": "range(start - 5, ...)", "file": _P, "old": "start_state_num + 2, start_state_num + 100", "new": "start_state_num - 5, start_state_num + 100", "expect": "C18.T1"},
+    {"name": "b'' as AAD", "file": _P, "old": "                state_num,\n                data.advertising_identifier,\n", "new": '                state_num,\n                b"",\n', "expect": "C18.T2"},
+    {"name": "state_num updated before the GSN test", "file": _P,
+     "old": '            gsn = int.from_bytes(decrypted[0:2], "little")\n', "new": '            gsn = int.from_bytes(decrypted[0:2], "little")\n            self.description.state_num = gsn\n',
+     "expect": "C18.G1"},
+    # ---- G1
+    {"name": "stale test inverted", "file": _P, "old": "            if state_num == start_state_num:\n", "new": "            if state_num != start_state_num:\n", "expect": ["C18.G1", "C18.T1"]},
+    {"name": "GSN mismatch only logged", "file": _P, "old": "                    gsn,\n                )\n                return\n", "new": "                    gsn,\n                )\n", "expect": "C18.G1"},
+    {"name": "unauthenticated candidate falls through", "file": _P, "old": "            if decrypted is None:\n                continue\n", "new": "            if decrypted is not None:\n                continue\n", "expect": "C18.G1"},
+    {"name": "listeners told when decryption failed", "file": _P, "old": "            if decrypted is None:\n                continue\n",
+     "new": "            if decrypted is None:\n                self._callback_listeners({})\n                continue\n", "expect": "C18.G1"},
+    {"name": "missing key only logged", "file": _P, "old": "            self._process_disconnected_events()\n            return\n\n        if not self.description:", "new": "            self._process_disconnected_events()\n\n        if not self.description:", "expect": "C18.G1"},
+    {"name": "state number advanced to the candidate + 1", "file": _P, "old": "            self.description.state_num = gsn\n", "new": "            self.description.state_num = gsn + 1\n", "expect": "C18.G1"},
+    {"name": "state number never advanced", "file": _P, "old": "            self.description.state_num = gsn\n", "new": "", "expect": "C18.G1"},
+    {"name": "GSN compared with the last accepted number instead of the nonce", "file": _P, "old": "            if gsn != state_num:\n", "new": "            if gsn == start_state_num:\n", "expect": "C18.G1"},
+    # ---- T1
+    {"name": "candidate start - 1 added", "file": _P, "old": "            start_state_num,  # This is the old state number (already used)\n",
+     "new": "            start_state_num,  # This is the old state number (already used)\n            start_state_num - 1,\n", "expect": "C18.T1"},
+    {"name": "window anchored at zero", "file": _P, "old": "        start_state_num = self.description.state_num\n", "new": "        start_state_num = 0\n", "expect": ["C18.T1"]},
+    {"name": "loop continues after acceptance", "file": _P, "old": "            self._callback_listeners(results)\n            return\n", "new": "            self._callback_listeners(results)\n            continue\n", "expect": "C18.T1"},
+    # ---- T2
+    {"name": "AAD and payload swapped at the call", "file": _P,
+     "old": "                data.encrypted_payload,\n                state_num,\n                data.advertising_identifier,\n",
+     "new": "                data.advertising_identifier,\n                state_num,\n                data.encrypted_payload,\n", "expect": "C18.T2"},
+    {"name": "AAD and payload swapped in decrypt", "file": _K, "old": "self.key.open(PACK_NONCE(gsn), data, advertising_identifier)", "new": "self.key.open(PACK_NONCE(gsn), advertising_identifier, data)", "expect": "C18.T2"},
+    {"name": "nonce from a constant", "file": _K, "old": "self.key.open(PACK_NONCE(gsn),", "new": "self.key.open(PACK_NONCE(0),", "expect": "C18.T2"},
+    {"name": "nonce from the last accepted number", "file": _P, "old": "                data.encrypted_payload,\n                state_num,\n", "new": "                data.encrypted_payload,\n                start_state_num + 1,\n", "expect": "C18.T2"},
+    {"name": "nonce prefix 1", "file": _C, "old": 'PACK_NONCE = partial(Struct("<LQ").pack, 0)', "new": 'PACK_NONCE = partial(Struct("<LQ").pack, 1)', "expect": "C18.T2"},
+    {"name": "nonce counter big-endian", "file": _C, "old": 'PACK_NONCE = partial(Struct("<LQ").pack, 0)', "new": 'PACK_NONCE = partial(Struct(">LQ").pack, 0)', "expect": "C18.T2"},
+    {"name": "tag compared on 2 bytes", "file": _C, "old": "        expected_tag = combined_text[-4:]\n", "new": "        expected_tag = combined_text[-2:]\n", "expect": "C18.T2"},
+    {"name": "endswith instead of startswith", "file": _C, "old": "if not tag.startswith(expected_tag):", "new": "if not tag.endswith(expected_tag):", "expect": "C18.T2"},
+    {"name": "return None after decrypt instead of before", "file": _C,
+     "old": "        if not tag.startswith(expected_tag):\n            return None\n        return ChaCha(self.key, nonce, counter=1).decrypt(ciphertext)\n",
+     "new": "        plaintext = ChaCha(self.key, nonce, counter=1).decrypt(ciphertext)\n        if not tag.startswith(expected_tag):\n            return None\n        return plaintext\n",
+     "expect": "C18.T2"},
+    {"name": "tag mismatch only logged", "file": _C, "old": "        if not tag.startswith(expected_tag):\n            return None\n", "new": "        if not tag.startswith(expected_tag):\n            logger.debug(\"bad tag\")\n", "expect": "C18.T2"},
+    {"name": "AAD left out of the MAC", "file": _C, "old": "        mac_data = data + self.pad16(data)\n", "new": '        mac_data = b""\n', "expect": "C18.T2"},
+    {"name": "MAC lengths swapped", "file": _C,
+     "old": '        mac_data += struct.pack("<Q", len(data))\n        mac_data += struct.pack("<Q", len(ciphertext))\n',
+     "new": '        mac_data += struct.pack("<Q", len(ciphertext))\n        mac_data += struct.pack("<Q", len(data))\n', "expect": "C18.T2"},
+    {"name": "key stream from block 0", "file": _C, "old": "ChaCha(self.key, nonce, counter=1).decrypt(ciphertext)", "new": "ChaCha(self.key, nonce, counter=0).decrypt(ciphertext)", "expect": "C18.T2"},
+    {"name": "key derivation label changed", "file": _P, "old": 'b"Broadcast-Encryption-Key")', "new": 'b"Broadcast-Key")', "expect": "C18.T2"},
+    {"name": "salt and info exchanged in the key derivation", "file": _P, "old": 'self._derive(long_term_pub_key_bytes, b"Broadcast-Encryption-Key")', "new": 'self._derive(b"Broadcast-Encryption-Key", long_term_pub_key_bytes)', "expect": "C18.T2"},
+    {"name": "key from the accessory's LTPK", "file": _P, "old": 'self.pairing_data["iOSDeviceLTPK"]', "new": 'self.pairing_data["AccessoryLTPK"]', "expect": "C18.T2"},
+    # ---- K1
+    {"name": "iid taken from bytes 0..2", "file": _P, "old": 'iid = int.from_bytes(decrypted[2:4], "little")', "new": 'iid = int.from_bytes(decrypted[0:2], "little")', "expect": "C18.K1"},
+    {"name": "value slice 4..8", "file": _P, "old": "            value = decrypted[4:12]\n", "new": "            value = decrypted[4:8]\n", "expect": "C18.K1"},
+    {"name": "GSN big-endian", "file": _P, "old": 'gsn = int.from_bytes(decrypted[0:2], "little")', "new": 'gsn = int.from_bytes(decrypted[0:2], "big")', "expect": "C18.K1"},
+    {"name": "delivered under aid 0", "file": _P, "old": '            results = {(BLE_AID, iid): {"value": from_bytes(char, value)}}', "new": '            results = {(0, iid): {"value": from_bytes(char, value)}}', "expect": "C18.K1"},
+    {"name": "raw bytes delivered", "file": _P, "old": '{"value": from_bytes(char, value)}}', "new": '{"value": value}}', "expect": "C18.K1"},
+    {"name": "advertising id from bytes 3..9", "file": _M, "old": "        advertising_identifier = data[2:8]\n", "new": "        advertising_identifier = data[3:9]\n", "expect": "C18.K1"},
+    {"name": "payload from byte 7", "file": _M, "old": "        encrypted_payload = data[8:]\n", "new": "        encrypted_payload = data[7:]\n", "expect": "C18.K1"},
+    {"name": "id upper-case", "file": _M, "old": "advertising_identifier.hex()[0 + i : 2 + i] for i in range(0, 12, 2)).lower()", "new": "advertising_identifier.hex()[0 + i : 2 + i] for i in range(0, 12, 2)).upper()", "expect": "C18.K1"},
+    {"name": "id without separators", "file": _M, "old": '        device_id = ":".join(advertising_identifier.hex()', "new": '        device_id = "".join(advertising_identifier.hex()', "expect": "C18.K1"},
+    {"name": "notification type constant changed", "file": _M, "old": "HOMEKIT_ENCRYPTED_NOTIFICATION_TYPE = 0x11", "new": "HOMEKIT_ENCRYPTED_NOTIFICATION_TYPE = 0x12", "expect": "C18.K1"},
+    {"name": "parser errors not caught", "file": _D, "old": "            except ValueError:\n                return\n\n            if pairing := self.pairings.get(data.id):\n                pairing._async_notification(data)",
+     "new": "            except KeyError:\n                return\n\n            if pairing := self.pairings.get(data.id):\n                pairing._async_notification(data)", "expect": "C18.K1"},
+    {"name": "routed by address", "file": _D, "old": "            if pairing := self.pairings.get(data.id):\n                pairing._async_notification(data)", "new": "            if pairing := self.pairings.get(data.address):\n                pairing._async_notification(data)", "expect": "C18.K1"},
+    {"name": "uint16 decoded big-endian", "file": _V, "old": '        return struct.unpack_from("H", value)[0]', "new": '        return struct.unpack_from(">H", value)[0]', "expect": "C18.K1"},
+    {"name": "uint32 decoded as 16 bit", "file": _V, "old": '        return struct.unpack_from("I", value)[0]', "new": '        return struct.unpack_from("H", value)[0]', "expect": "C18.K1"},
+]
